@@ -64,6 +64,7 @@ Proof.
   destruct a, b; cbn [fv_eq fv_hash]; intros H; try discriminate;
     try (apply N.eqb_eq in H; subst; reflexivity);
     try (apply name_eq_hash in H; rewrite H; reflexivity);
+    try (apply bytes_eqb_eq in H; rewrite H; reflexivity);
     try (apply bytes_eqb_eq in H; subst; reflexivity).
   apply charstr_eq_hash in H. rewrite H. reflexivity.
 Qed.
@@ -100,6 +101,9 @@ Proof.
   - apply eq_true_iff_eq. rewrite !bytes_eqb_eq. split; auto.
   - apply eq_true_iff_eq. rewrite !bytes_eqb_eq. split; auto.
   - apply eq_true_iff_eq. rewrite !bytes_eqb_eq. split; auto.
+  - apply eq_true_iff_eq. rewrite !bytes_eqb_eq. split; auto.
+  - apply eq_true_iff_eq. rewrite !bytes_eqb_eq. split; auto.
+  - apply eq_true_iff_eq. rewrite !bytes_eqb_eq. split; auto.
 Qed.
 
 Theorem rd_eq_sym e a b : rd_eq e a b = rd_eq e b a.
@@ -125,13 +129,19 @@ Proof.
   apply (G []).
 Qed.
 
+Lemma pad_length n w : length (pad n w) = n.
+Proof. unfold pad. rewrite firstn_length, app_length, repeat_length. lia. Qed.
+Lemma be48_length x : length (be48 x) = 6%nat.
+Proof. reflexivity. Qed.
+
 Lemma same_schema_kinds a : forall b, map fv_kind a = map fv_kind b -> tails_last (map fv_kind a) = true ->
   same_schema (map fv_field a) (map fv_field b) = true.
 Proof.
   induction a as [|x a IH]; intros [|y b] K T; cbn [map] in *; try discriminate; [reflexivity|].
   injection K as K1 K2. cbn [tails_last] in T. apply andb_true_iff in T as [T1 T2].
   cbn [same_schema]. rewrite (IH b K2 T2), andb_true_r. apply andb_true_iff. split.
-  - destruct x, y; cbn in K1; try discriminate; cbn [fv_field same_kind be16 be32 length]; reflexivity.
+  - destruct x, y; cbn in K1; try discriminate; cbn [fv_field same_kind be16 be32 length];
+      rewrite ?pad_length, ?be48_length; reflexivity.
   - destruct x; cbn [fv_kind fv_field tail_last] in *; try reflexivity; destruct a; cbn [map]; try reflexivity; discriminate.
 Qed.
 
@@ -150,6 +160,16 @@ Proof.
   - apply Forall_forall. intros f Hf. apply in_map_iff in Hf as [v [<- Hv]]. rewrite Forall_forall in Ob. apply Ob, Hv.
 Qed.
 
+(* types outside rd_table (TSIG, SVCB/HTTPS, IPSECKEY, OPT): T1 reads that
+   their Hash impls feed every struct field in declaration order, which is
+   what c04_rdh does; equal values (field-wise ==) feed identical tokens *)
+Lemma rd_extra_hash_ok :
+  forallb (fun r => nlist_eqb (snd (snd r)) (iota (N.to_nat (fst (snd r))))) rd_extra_hash = true.
+Proof. vm_compute. reflexivity. Qed.
+
+Theorem rdh_eq_hash code a b : all2 fv_eq a b = true -> c04_rdh code a = c04_rdh code b.
+Proof. intros H. unfold c04_rdh. f_equal. apply all2_eq_hash. exact H. Qed.
+
 (* the pre-fix Record::hash pattern on this level: a Hash impl that feeds a
    field == ignores is rejected by row_ok *)
 Example row_ok_rejects_extra_hash_field :
@@ -162,5 +182,7 @@ Example typed_example :
   c04_rd_eq 15 [VU16 10; VNameLc [[65]]] [VU16 10; VNameLc [[97]]] = Some true /\
   c04_rd_hash 15 [VU16 10; VNameLc [[65]]] = [TW 15; TW 10; TB 1; TB 97; TB 0] /\
   c04_rd_ccmp 15 [VU16 10; VNameLc [[98]]] [VU16 10; VNameLc [[97;97]]] = Ok Lt /\
-  c04_rd_hash 43 [VU16 1; VU8 8; VU8 2; VOcts [1;2]] = [TW 43; TW 1; TB 8; TB 2; TN 2; TR [1;2]].
-Proof. vm_compute. auto. Qed.
+  c04_rd_hash 43 [VU16 1; VU8 8; VU8 2; VOcts [1;2]] = [TW 43; TW 1; TB 8; TB 2; TN 2; TR [1;2]] /\
+  c04_rdh 1 [VAddr4 [1;2;3;4]] = [TW 1; TD 67305985] /\
+  c04_rdh 45 [VU8 2; VU8 1; VU8 2; VAddr4 [9;8;7;6]; VOcts [5]] = [TW 45; TB 2; TB 1; TB 2; TD 101124105; TN 1; TR [5]].
+Proof. vm_compute. repeat split; reflexivity. Qed.
